@@ -78,8 +78,13 @@ func posInputs(rng *rand.Rand, g *LexGrammar, n int) [][]byte {
 				}
 			}
 		}
+		// a leading byte order mark is ordinary text to a lexer (a classic place for special cases)
+		if i%8 == 3 {
+			b = append([]byte("\xef\xbb\xbf"), b...)
+		}
 		out = append(out, b)
 	}
+	out = append(out, []byte("\xef\xbb\xbf"), []byte("\xef\xbb"), []byte("\ufeff\ufeff"))
 	return out
 }
 
